@@ -13,20 +13,19 @@
    is identified by the base document [cid], the number of edits [ver], the code flag and
    whether it was edited since the last calculation [dirty].
 
-   [fixes] selects, per defect, the shipped code (false) or the proposed repair (true):
+   [fixes] selects, per open defect, the shipped code (false) or the proposed repair (true):
      fix9   internal/cli/verify.go compares the signed header (fixes/C09-9-*.diff)
-     fix10  dsig.Signature: "" does not parse; Verify/Unsafe are nil-safe; Envelope validation
-            requires every signature (fixes/C10-10-*.diff)
-     fix11  head.Header.Contains is nil-safe; header validation requires every stamp and link
-            (fixes/C10-11-*.diff) *)
+     fix10  dsig.Signature: "" does not parse; Envelope validation requires every signature
+            entry (fixes/C10-10-*.diff)
+   "shipped" is the repository at commit b9cd510, i.e. with the nil guards of 3e1b1c1 in place. *)
 From Coq Require Import ZArith List Bool String.
 From Verif Require Import Base.Wire Env.Header Env.Sig.
 Import ListNotations.
 Open Scope Z_scope.
 
-Record fixes := mkFx { fix9 : bool; fix10 : bool; fix11 : bool }.
-Definition shipped : fixes := mkFx false false false.
-Definition repaired : fixes := mkFx true true true.
+Record fixes := mkFx { fix9 : bool; fix10 : bool }.
+Definition shipped : fixes := mkFx false false.
+Definition repaired : fixes := mkFx true true.
 
 Record content := mkC {
   cid : Z; ver : Z; code : bool; dirty : bool; cok : bool; vok : bool
@@ -119,10 +118,10 @@ Definition doc_digest (c : content) : digest := mkDig sha256 (hash c).
 
 (* ---------------------------------------------------------------------------------------
    Envelope.ValidateWithContext + verifyDigest *)
-Definition v_head (fx : fixes) (e : env) : v3 :=
+Definition v_head (e : env) : v3 :=
   match head e with
   | None => VErr                                   (* validation.Required *)
-  | Some h => validate_header (fix11 fx) (signed e) h
+  | Some h => validate_header (signed e) h
   end.
 Definition v_doc (e : env) : v3 :=
   match doc e with
@@ -153,62 +152,49 @@ Definition verify_digest (e : env) : outcome :=
   end.
 
 Definition validate (fx : fixes) (e : env) : outcome :=
-  match v3_and (v_head fx e) (v3_and (v_doc e) (v_sigs fx e)) with
-  | VPanic => PANIC
+  match v3_and (v_head e) (v3_and (v_doc e) (v_sigs fx e)) with
   | VErr => ERR EValidation
   | VOk => verify_digest e
   end.
 
 (* ---------------------------------------------------------------------------------------
    Envelope.verifySignature / Envelope.Verify *)
-Definition head_contains (fx : fixes) (e : env) (h2 : header) : result bool :=
-  if fix11 fx then Ok (contains_opt (head e) h2) else contains_shipped (head e) h2.
+Definition head_contains (e : env) (h2 : header) : bool := contains_opt (head e) h2.
 
 (* the loop over the keys: a key that does not verify is skipped, the first that does decides *)
-Fixpoint verify_sig_keys (fx : fixes) (e : env) (s : sigent) (ks : list keyid) : v3 :=
+Fixpoint verify_sig_keys (e : env) (s : sigent) (ks : list keyid) : v3 :=
   match ks with
   | [] => VErr                                     (* "no key match found" *)
   | k :: r =>
-    match verify_payload (fix10 fx) k s with
-    | PPanic => VPanic
-    | PFail => verify_sig_keys fx e s r
-    | PHeader h => match head_contains fx e h with
-                   | Ok true => VOk
-                   | Ok false => VErr              (* "header mismatch" *)
-                   | _ => VPanic
-                   end
+    match verify_payload k s with
+    | PFail => verify_sig_keys e s r
+    | PHeader h => if head_contains e h then VOk else VErr    (* "header mismatch" *)
     end
   end.
 
-Definition verify_signature (fx : fixes) (e : env) (s : sigent) (ks : list keyid) : v3 :=
+Definition verify_signature (e : env) (s : sigent) (ks : list keyid) : v3 :=
   match ks with
   | [] =>
-    match unsafe_payload (fix10 fx) s with
-    | PPanic => VPanic
+    match unsafe_payload s with
     | PFail => VErr                                (* "invalid signature payload" *)
-    | PHeader h => match head_contains fx e h with
-                   | Ok true => VOk
-                   | Ok false => VErr
-                   | _ => VPanic
-                   end
+    | PHeader h => if head_contains e h then VOk else VErr
     end
-  | _ => verify_sig_keys fx e s ks
+  | _ => verify_sig_keys e s ks
   end.
 
 (* every signature is looked at, the errors are collected *)
-Fixpoint verify_all (fx : fixes) (e : env) (l : list sigent) (ks : list keyid) : v3 :=
+Fixpoint verify_all (e : env) (l : list sigent) (ks : list keyid) : v3 :=
   match l with
   | [] => VOk
-  | s :: r => v3_and (verify_signature fx e s ks) (verify_all fx e r ks)
+  | s :: r => v3_and (verify_signature e s ks) (verify_all e r ks)
   end.
 
-Definition verify (fx : fixes) (e : env) (ks : list keyid) : outcome :=
+Definition verify (e : env) (ks : list keyid) : outcome :=
   match sigs e with
-  | [] => ERR EOther                               (* "no signatures to verify" *)
-  | l => match verify_all fx e l ks with
+  | [] => ERR ESignature                           (* ErrSignature "no signatures to verify" *)
+  | l => match verify_all e l ks with
          | VOk => OK
          | VErr => ERR EValidation
-         | VPanic => PANIC
          end
   end.
 
@@ -232,10 +218,9 @@ Definition cli_verify_parsed (fx : fixes) (e : env) (key : option keyid) : outco
       match sigs e with
       | [] => ERR EOther                           (* 422 "envelope is not signed" *)
       | s0 :: _ =>
-        match verify_payload (fix10 fx) k s0 with
-        | PPanic => PANIC
+        match verify_payload k s0 with
         | PFail => ERR EOther                      (* 422 "key mismatch" *)
-        | PHeader _ => if fix9 fx then verify fx e [k] else OK
+        | PHeader _ => if fix9 fx then verify e [k] else OK
         end
       end
     end
@@ -328,21 +313,17 @@ Definition step (fx : fixes) (e : env) (o : op) : env * outcome :=
       match validate fx e1 with
       | OK => (e1, OK)
       | ERR r => (set_sigs e [], ERR r)            (* "invalid envelopes cannot be signed" *)
-      | PANIC => (e1, PANIC)                       (* the clean-up is never reached *)
+      | PANIC => (e1, PANIC)                       (* a panic would skip the clean-up (cannot happen: proved) *)
       end
     end
   | Unsign => (set_sigs e [], OK)
-  | AddStamp p v =>
-    with_head e (fun h => match add_stamp (stamps h) (mkStamp p v) with
-                          | Ok l => Ok (h_set_stamps h l) | Err k => Err k | Panic => Panic end)
-  | AddLink k u =>
-    with_head e (fun h => match append_link (links h) (mkLink k u) with
-                          | Ok l => Ok (h_set_links h l) | Err r => Err r | Panic => Panic end)
+  | AddStamp p v => with_head e (fun h => Ok (h_set_stamps h (add_stamp (stamps h) (mkStamp p v))))
+  | AddLink k u => with_head e (fun h => Ok (h_set_links h (append_link (links h) (mkLink k u))))
   | AddTag t => with_head e (fun h => Ok (h_set_tags h (tags h ++ [t])))
   | AddMeta k v => with_head e (fun h => Ok (h_set_meta h (set_meta (meta h) k v)))
   | SetNotes s => with_head e (fun h => Ok (h_set_notes h s))
   | Validate => (e, validate fx e)
-  | Verify ks => (e, verify fx e ks)
+  | Verify ks => (e, verify e ks)
   | Reparse => reparse_with fx e (fun e => Some e)
   | ReparseWithEmptySig => reparse_with fx e (fun e => Some (set_sigs e (sigs e ++ [NoJws])))
   | ReparseWithNullSig => reparse_with fx e (fun e => Some (set_sigs e (sigs e ++ [NilSig])))
